@@ -200,6 +200,8 @@ def gen_case(rng, i):
             'npulses': rng.randint(1, 4)}
     if rng.random() < 0.3 and mode in ('normal', 'tight', 'tdc_span', 'shifted_turns'):
         c = int_frequencies(rng, c)
+    # a single slit may be given as 0-d variables (another code path of the repetition logic)
+    c['layout'] = 'scalar' if (len(begin) == 1 and i % 2 == 0) else 'array'
     return c
 
 
